@@ -357,7 +357,8 @@ def s18_source_tables(ctx):
             r.violate('Source|from_str|"%s"|unreachable-literal' % l, 'arm literal "%s" can never equal the normalised input' % l, fb.file, fb.line)
     # serde names = G
     at = serde_attrs_of(f, SRC)
-    if at is not None:
+    has_serde = any((i.get('trait_crate') or '').startswith('serde') and i['self_tyj'].get('def') == SRC['path'] for i in f.impls)
+    if at is not None and has_serde:
         tattrs, vattrs, _ = at
         rename_all = None
         for a in tattrs:
